@@ -147,6 +147,9 @@ def sigMenu (k : Nat) : Option Sig :=
   | 7 => some ⟨[.string], some .string⟩
   | 8 => some ⟨[], some .number⟩
   | 9 => some ⟨[.number], some (.union [.number, .null])⟩
+  | 10 => some ⟨[.typedArray (.typedArray .number)], none⟩
+  | 11 => some ⟨[.typedArray (.union [.string, .number])], none⟩
+  | 12 => some ⟨[.typedArray (.typedArray (.union [.null, .string]))], some (.typedArray .any)⟩
   | _ => some ⟨[], none⟩
 
 def parseRegOp (s : String) : Option RegOp :=
